@@ -1,11 +1,13 @@
 ID = "C09"
 LEVEL = "other"
-CONTRACT_MODULES = ["contracts.optimize", "contracts.matrixutils", "contracts.jacobian_bisect"]
+CONTRACT_MODULES = ["contracts.optimize_state", "contracts.optimize", "contracts.matrixutils", "contracts.jacobian_bisect"]
 FUNCTIONS = ["Optimize.solve", "Optimize.solve@self-calls", "Optimize.step@self-calls", "Optimize.reload@self-calls", "Optimize.reload@restore-block",
              "MeritFunctionForMatch.__call__@within-tol-flag", "MeritFunctionForMatch.__call__@knob-block", "Optimize.set_knobs_from_x",
              "JacobianSolver.step@bisection-block", "JacobianSolver.eval@calls-the-merit-function-at-x"]
 # "otherwise restores the knobs": the restore goes through reload(iteration=0), whose block writes EVERY knob of the logged row and its flags (proved under C15)
 BORROW = [("C15", ["Optimize.reload@restore-block"])]
+# which knobs / targets take part in an evaluation is read off the CURRENT active flags on every access
+FUNCTIONS += ["MeritFunctionForMatch.mask_input", "MeritFunctionForMatch.mask_output"]
 RAC = "rac/c09.py"
 RAC_BUDGET = {"quick": 60, "thorough": 900}
 RAC_MIN = {"quick": 239, "thorough": 239}      # fewer run-time evaluations than this = the harness skipped its work: checker broken, not "held"
